@@ -4,6 +4,7 @@
 -/
 import Cgp.GatewaySpec
 import Cgp.Props.C03
+import Cgp.Toy
 import Cgp.Proofs.C02
 namespace Cgp.Props.C01
 open Cgp Cgp.Xdr Cgp.Gateway
@@ -705,5 +706,30 @@ example : SigsOk (fun _ _ (_ : Unit) => true) [] 3 [⟨⟨[1], 5⟩, some ()⟩]
   · intro p _ s _; rfl
   · simp [signedWeight]
   · simp [signedWeight, two128]
+
+/-! ### non-vacuity (the model RUN in the kernel on a concrete history, toy hash) -/
+section NonVacuity
+open Cgp.Toy
+
+def m0 : Message := ⟨[97], [49], [98], ⟨true, List.replicate 32 9⟩, List.replicate 32 3⟩
+
+/-- the hypotheses of `approved_was_signed` are satisfiable: a constructed gateway, typed sets and submissions, and an
+    approval on record after the history -/
+theorem approved_was_signed_nonvacuous :
+    (∀ ws ∈ [ws0], ws.Typed) ∧ (∀ op ∈ [(Op.approve [m0] pf0 : Op Unit)], op.Typed) ∧
+    ∃ w0, constructed H0 owner0 owner0 [1] 0 0 [ws0] 5 = some w0 ∧
+      (run H0 V0 w0 [.approve [m0] pf0]).1.st.approvals [97] [49] = .approved (messageHash H0 m0) := by
+  refine ⟨?_, ?_, _, rfl, ?_⟩
+  · intro ws h
+    simp only [List.mem_singleton] at h
+    subst h
+    exact ws0_typed
+  · intro op h
+    simp only [List.mem_singleton] at h
+    subst h
+    exact pf0_typed
+  · decide +kernel
+
+end NonVacuity
 
 end Cgp.Props.C01
